@@ -548,7 +548,9 @@ def to_model(data_file: typing.IO, _config = None, progress_callback=lambda _: N
 
     if state in (_State.TEXT, _State.TEXT_MORE):
 
-      if line is None or _EMPTY_RE.fullmatch(line):
+      # a cue payload ends at an empty line: a line holding spaces or tabs belongs to it
+
+      if line is None or line.strip("\r\n") == "":
         if state is _State.TEXT:
           # cue without payload
           div.push_child(current_p)
